@@ -203,7 +203,9 @@ struct Harness {
             // the datum may be a separate probe or - as module.c and iauth_core.c do - the stored element itself
             void *dat = (void *)datum(op.key);
             if (old && u.cmp != CMP_PTR && (op.key % 2) == 0 && nodes.count(old)) dat = set_node_data(nodes[old]);
-            int res = set_remove(&st, dat, op.flag);
+            // "no_dispose" is a truth value: any non-zero int keeps the element
+            static const int truthy[] = {1, 2, -1, 4, 0x100, 1, 1};
+            int res = set_remove(&st, dat, op.flag ? truthy[(unsigned)op.key % 7] : 0);
             g_cb_mode = 0;
             if (g_cb_member_seen) { std::ostringstream o; o << "cleanup of element #" << g_cb_member_seen << " ran inside set_remove while set_find still reported its key as a member"; fail(o.str()); }
             if ((res != 0) != (old != 0)) { fail(std::string("remove returned ") + std::to_string(res) + " for a key that is " + (old ? "present" : "absent")); }
@@ -241,7 +243,8 @@ struct Harness {
             C.clears++;
             std::vector<int> ids; for (auto &kv : model) ids.push_back(kv.second);
             g_cb_set = &st; g_cb_mode = 2; g_cb_member_seen = 0;
-            set_clear(&st, op.flag);
+            static const int truthy_c[] = {1, 2, -1, 4, 0x100, 1, 1};
+            set_clear(&st, op.flag ? truthy_c[(unsigned)op.key % 7] : 0);
             g_cb_mode = 0;
             if (g_cb_member_seen) { std::ostringstream o; o << "cleanup of element #" << g_cb_member_seen << " ran inside set_clear while set_find still reported its key as a member"; fail(o.str()); }
             for (int id : ids) {
